@@ -71,7 +71,9 @@ CFG = {
             "duplicated map entries, nesting to depth 16 and 256 (arrays, indefinite arrays, tags, maps, tag 24), byte substitutions, sub-type "
             "and unrelated decoders on the same bytes; targeted shapes for every hand-modelled decoder (all 16 address header nibbles x "
             "boundary lengths, pointer var-nats, Byron envelope/crc/attributes, third element of legacy outputs, bounded-bytes chunkings, "
-            "integer extremes, raw key/hash lengths, EMIP-3 container lengths); malformed hex / bech32 (valid checksum with bad padding) / "
+            "integer extremes, raw key/hash lengths, EMIP-3 container lengths); text keys of 1..200 bytes with multi-byte characters at every "
+            "offset around 16/32/48/64 in every map structure, over-long values, text variants; EVERY returned error is formatted (Display, "
+            "Debug, to_string, JsError conversion) inside the guarded call; malformed hex / bech32 (valid checksum with bad padding) / "
             "base58 / JSON text; sweep: every input of length <= 1 for every entry point, length 2 sampled (quick) or complete (thorough) - "
             "error results of the sweep are counted per decoder (`sweep` lines), everything else is an individual case; "
             "predictions: hand models exact; schema decoder (strict) exact on canonical writer-form input and `accept` on other valid "
